@@ -13,6 +13,7 @@
     the overall outcome is not Ok                           overall_not_ok, affected_overall_not_ok
     no condition claims readiness for a failed step         no_ready_condition_for_unsuccessful, conditions_truthful
     a pass returns normally                                 result_total
+    (the relation is inhabited / extends C01-C02)           timeout_outcome_possible, fault_free_is_reconcile
     (one Function) an API fault is answered Retry/PermFail/exception/hang, never Ok, and the cluster is where it
       was or where the fault-free evaluation takes it       rf_fault_contained, rf_fault_never_ok, rf_state_between
     once the faults stop, further passes converge           rf_recovers (per resource, ≤ 2 passes),
@@ -280,6 +281,45 @@ theorem no_cause_all_done (hwf : wf.WF = true) (hp : Possible eval frun trig int
         cases hits : tg.items with
         | nil => simp
         | cons t0 ts => simp [htag]
+
+/-- the relation is never empty: whatever the workflow and the environment, "the group timed out before anything
+    completed" is a possible outcome (so the theorems above are not vacuous for any workflow) -/
+theorem timeout_outcome_possible (eval : EvalFn) (frun : FRun) (trig : JVal) (wf : Workflow) :
+    Possible eval frun trig true wf (wf.steps.map fun s => (s.label, ⟨.cancelled, []⟩)) := by
+  unfold Possible runF causeOf
+  simp only [Bool.true_or]
+  exact runStepsF_all_cancelled eval frun trig wf.steps {} rfl
+
+/-- **the fault model extends C01/C02**: in an environment without faults (`liftRun run`) and without interruption,
+    "every task completed" is a possible outcome, what the post-loop stores is the sequential trace of C01, and the
+    Result is C01's `reconcile` (which C02 proves to be the answer under every completion order) -/
+theorem fault_free_is_reconcile (eval : EvalFn) (run : RunFn) (trig : JVal) (wf : Workflow) (hwf : wf.WF = true) :
+    Possible eval (liftRun run) trig false wf (doneTags eval run trig wf.steps {}) ∧
+    resultsF eval (liftRun run) trig false wf (doneTags eval run trig wf.steps {}) =
+      (trace eval run trig wf).results ∧
+    collectF eval wf (entriesF eval (liftRun run) trig false wf (doneTags eval run trig wf.steps {})) =
+      reconcile eval run trig wf := by
+  obtain ⟨h1, h2⟩ := runStepsF_fault_free eval run trig
+    (causeOf false (doneTags eval run trig wf.steps {})) wf.steps {} {}
+    (by simpa [Workflow.WF] using hwf) rfl rfl
+  have hres : resultsF eval (liftRun run) trig false wf (doneTags eval run trig wf.steps {}) =
+      (trace eval run trig wf).results := by
+    unfold resultsF entriesF runF
+    rw [h2]
+    simp [trace, List.map_map, Function.comp_def]
+  refine ⟨h1, hres, ?_⟩
+  have hpre : entriesF eval (liftRun run) trig false wf (doneTags eval run trig wf.steps {}) =
+      (trace eval run trig wf).results.map fun p => (p.1, (Tag.done, p.2)) := by
+    unfold entriesF runF; rw [h2]; rfl
+  unfold collectF reconcile
+  have hmap : ((entriesF eval (liftRun run) trig false wf (doneTags eval run trig wf.steps {})).map
+      fun p => (p.1, p.2.2)) = (trace eval run trig wf).results := hres
+  rw [hmap]
+  have hc : stepCondsF wf (entriesF eval (liftRun run) trig false wf (doneTags eval run trig wf.steps {})) =
+      stepConds (listed wf (trace eval run trig wf).results) := by
+    rw [hpre]; exact stepCondsF_all_done _ wf.steps
+  rw [hc]
+  rfl
 
 end group
 
